@@ -340,6 +340,8 @@ class Exec:
             return self.branch(truth_term(v))
         if isinstance(v, (SBytes, SStr)):
             return v.truth(self) if isinstance(v, SStr) else len(v) > 0
+        if hasattr(v, 'truth') and not isinstance(v, (Obj,)):
+            return v.truth(self)
         if isinstance(v, (Obj, FuncVal, ClassVal, Builtin, Opaque, EnumVal, BoundBuiltin)):
             if isinstance(v, Obj) and 'truth' in self.hooks:
                 r = self.hooks['truth'](self, v)
@@ -351,8 +353,8 @@ class Exec:
     # ---- running ---------------------------------------------------------------
     def call_function(self, info, args, kwargs=None, bound=None):
         kwargs = kwargs or {}
-        if info.is_async and not getattr(self, 'in_await', False):
-            return Coroutine(info, args, kwargs, bound)
+        if info.is_async:
+            return Coroutine(info, args, kwargs, bound)      # calling an async function only creates the coroutine; `await` runs it
         return self._run_body(info, args, kwargs, bound)
 
     def _run_body(self, info, args, kwargs, bound):
@@ -717,6 +719,8 @@ class Exec:
             r = self.hooks['global'](self, module, n)
             if r is not None:
                 return r
+        if n == '__name__':
+            return f'nmea2000.{module}'
         r = self.repo.resolve_global(module, n) if module in self.repo.modules or module else None
         if r is None:
             from .builtins import BUILTINS
@@ -769,6 +773,11 @@ class Exec:
             return SBytes.of(a) + SBytes.of(b)
         if isinstance(op, ast.Pow):
             if isinstance(a, Sym) or isinstance(b, Sym):
+                if not isinstance(a, Sym) and a == 2 and isinstance(b, Sym) and b.ty == 'int':
+                    neg = mk_bool(int_term(b) < 0)
+                    if neg is not False and self.truth(neg):
+                        raise Unsupported('2 ** negative symbolic exponent')
+                    return 1 << b           # 2**k for k >= 0: the uninterpreted pow2(k) with its facts
                 raise Unsupported('symbolic **')
         if isinstance(op, ast.Div) and not isinstance(a, Sym) and not isinstance(b, Sym):
             if b == 0:
@@ -1020,6 +1029,15 @@ class Exec:
             if name == '__dict__':
                 return obj.attrs
             raise PyRaise(make_exc('AttributeError', name))
+        if isinstance(obj, SuperProxy):
+            mro = self.repo.mro(obj.obj.cls)
+            after = mro[mro.index(obj.cls) + 1:] if obj.cls in mro else []
+            for c in after:
+                if name in c.methods:
+                    return FuncVal(c.methods[name], obj.obj)
+            if name == '__init__':
+                return Builtin('object.__init__', lambda ex, *a, **k: None)
+            raise PyRaise(make_exc('AttributeError', name))
         if isinstance(obj, ClassVal):
             ci = obj.info
             m = self.repo.find_method(ci, name)
@@ -1249,6 +1267,10 @@ class Exec:
             r = self.hooks['call_ast'](self, e, fr)
             if r is not None:
                 return r[0]
+        if isinstance(e.func, ast.Name) and e.func.id == 'super' and not e.args and 'super' not in fr.locals:
+            if fr.func is None or fr.func.cls is None or 'self' not in fr.locals:
+                raise Unsupported('super() outside a method')
+            return SuperProxy(fr.locals['self'], fr.func.cls)
         f = self.concretize(self.eval(e.func, fr))
         args = []
         for a in e.args:
@@ -1341,6 +1363,12 @@ class Exec:
         if key not in self.ghost:
             self.ghost[key] = self.eval(d, Frame(ci.module))   # evaluated once at class creation in CPython
         return self.ghost[key]
+
+
+class SuperProxy:
+    def __init__(self, obj, cls):
+        self.obj = obj
+        self.cls = cls
 
 
 class Coroutine:
